@@ -56,11 +56,14 @@ class SigmaLogSource:
         )
 
     def to_dict(self) -> dict[str, Any]:
-        return {
-            field.name: str(value)
-            for field in dataclasses.fields(self)
-            if (value := self.__getattribute__(field.name)) is not None
+        d: dict[str, Any] = {
+            name: str(value)
+            for name in ("category", "product", "service", "definition")
+            if (value := self.__getattribute__(name)) is not None
         }
+        if self.custom_attributes:  # custom attributes are written as they were read
+            d.update(self.custom_attributes)
+        return d
 
     def __contains__(self, other: "SigmaLogSource") -> bool:
         """
